@@ -4,6 +4,9 @@
 package samples
 
 import (
+	"bytes"
+	"fmt"
+
 	"verif/internal/gen/docxw"
 	"verif/internal/gen/epubw"
 	"verif/internal/gen/odtw"
@@ -115,6 +118,35 @@ func PDFForms() []byte {
 	return pdfw.Write(d, pdfw.Layout{PerPageFonts: true}).Bytes
 }
 
+// PDFBadKid: a.pdf whose second page-tree kid is not a page node (traversal fails after the first page).
+func PDFBadKid() []byte {
+	b := append([]byte{}, PDF()...)
+	first := bytes.Index(b, []byte("/Type /Page /"))
+	if first >= 0 {
+		if second := bytes.Index(b[first+1:], []byte("/Type /Page /")); second >= 0 {
+			copy(b[first+1+second:], []byte("/Type /Pagx /"))
+		}
+	}
+	return b
+}
+
+// PDFHeaderFooter: three pages with a running header, a "Page n" footer and unique body lines.
+func PDFHeaderFooter() []byte {
+	var d pdfw.Doc
+	d.Name = "hf"
+	for p := 1; p <= 3; p++ {
+		d.Pages = append(d.Pages, pdfw.Page{Lines: []pdfw.Line{
+			{Font: pdfw.Type1WinAnsi, Text: "Quarterly Report Draft", X: 72, Y: 760, Size: 10},
+			{Font: pdfw.Type1WinAnsi, Text: "Confidential Internal", X: 400, Y: 760, Size: 10},
+			{Font: pdfw.Type1WinAnsi, Text: fmt.Sprintf("Body paragraph number %d with its own words alpha%d beta%d.", p, p, p), X: 72, Y: 600, Size: 12},
+			{Font: pdfw.Type1WinAnsi, Text: fmt.Sprintf("Second body line of page %d gamma%d delta%d.", p, p, p), X: 72, Y: 586, Size: 12},
+			{Font: pdfw.Type1WinAnsi, Text: fmt.Sprintf("Page %d", p), X: 72, Y: 30, Size: 10},
+			{Font: pdfw.Type1WinAnsi, Text: "Acme Corp", X: 400, Y: 30, Size: 10},
+		}})
+	}
+	return pdfw.Write(d, pdfw.Layout{}).Bytes
+}
+
 // PDFStream: same logical document as a.pdf with xref stream, object streams and Flate.
 func PDFStream() []byte {
 	return pdfw.Write(PDFDoc(), pdfw.Layout{XRef: "stream", ObjStm: "all", Filter: "Fl"}).Bytes
@@ -195,7 +227,7 @@ func Named() []struct {
 		Name string
 		Data []byte
 	}{
-		{"a.pdf", PDF()}, {"pending.pdf", PDFPending()}, {"broken.pdf", PDFBroken()}, {"stream.pdf", PDFStream()}, {"ties.pdf", PDFTies()}, {"widths.pdf", PDFWidths()}, {"forms.pdf", PDFForms()},
+		{"a.pdf", PDF()}, {"pending.pdf", PDFPending()}, {"broken.pdf", PDFBroken()}, {"stream.pdf", PDFStream()}, {"ties.pdf", PDFTies()}, {"widths.pdf", PDFWidths()}, {"forms.pdf", PDFForms()}, {"badkid.pdf", PDFBadKid()}, {"hf.pdf", PDFHeaderFooter()},
 		{"a.docx", DOCX()}, {"a.odt", ODT()}, {"a.xlsx", XLSX()}, {"a.pptx", PPTX()}, {"a.epub", EPUB3()}, {"b.epub", EPUB2()}, {"a.html", HTML()},
 	}
 }
